@@ -62,6 +62,16 @@ class Site:
             if m:
                 return {"status": 302, "ctype": "text/html", "kind": "html", "assets": [], "outlinks": [], "body": "",
                         "location": "/chain/%d" % (int(m.group(2)) + 1)}
+            # endlessly nested documents where every nested reference first answers with a redirect
+            m = re.match(r"^(https?://[^/]+)/rnest/(\d+)\.json$", url)
+            if m:
+                return {"status": 302, "ctype": "text/html", "kind": "html", "assets": [], "outlinks": [], "body": "",
+                        "location": "/rdeep/%s.json" % m.group(2)}
+            m = re.match(r"^(https?://[^/]+)/rdeep/(\d+)\.json$", url)
+            if m:
+                k = int(m.group(2))
+                return {"status": 200, "ctype": "application/json", "kind": "json", "assets": [], "outlinks": [],
+                        "body": json.dumps({"next": "%s/rnest/%d.json" % (m.group(1), k + 1), "img": "%s/rdeep/i%d.png" % (m.group(1), k)})}
         if p is None:
             return {"status": 404, "ctype": "text/html", "body": "<html><body>not found</body></html>", "assets": [], "outlinks": [], "kind": "html"}
         if p.get("body") is None:
